@@ -1,498 +1,16 @@
-(* Concrete model of the module life cycle of des (C09 shutdown / restart, C13 panics):
-     des/src/net/runtime/ctx.rs      buf_send_at / buf_schedule_at / buf_process
-     des/src/net/runtime/events.rs   MessageExitingConnection / HandleMessageEvent / AsyncWakeupEvent /
-                                     ModuleRestartEvent, ModuleRef::{handle_message, async_wakeup,
-                                     module_restart, at_sim_start, at_sim_end, reset}
-     des/src/net/runtime/unwind.rs   Harness::exec / catch
-     des/src/net/runtime/mod.rs      SimLifecycle::{at_sim_start, at_sim_end}
-     des/src/net/module/refs.rs      ModuleRef::{activate, deactivate}
-     des/src/net/module/ctx/mod.rs   shutdown / shutdow_and_restart_in
-     des/src/time/driver.rs          Driver (next_wakeup, timer slots: bump / next)
-   Function names and branch structure follow the Rust code.  User code (callbacks and
-   tokio tasks) is a script.  The world has k modules 0..k-1 (2 <= k <= 4) on a ring:
-   gate "out" of module m is connected to gate "in" of module m+1; gate "far" of m is
-   connected to the transit gate "via" of m+1, which is connected to gate "fin" of m+2
-   (all indices mod k, no channels).  No proofs in this file. *)
+(* The model of the module life cycle (coq/Life/Sim.v) with its wire format: [run] decodes a script, runs it and
+   encodes the trace and the returned error list.  No proofs in this file. *)
 From Coq Require Import List NArith PArith Bool.
 From DesVerif Require Import Common.Fuel Common.Codec.
+From DesVerif Require Export Life.Sim.
 Import ListNotations.
 Open Scope N_scope.
-
-(* ---- scripts of user code ---- *)
-Inductive act :=
-| ALog (x : N)                       (* write x to the log *)
-| ASend (far : bool) (d x : N)       (* send_in(msg x, "out" | "far", d) *)
-| ASched (d x : N)                   (* schedule_in(msg x, d) *)
-| ASleep (d : N)                     (* des::time::sleep(d).await   (tasks only) *)
-| AShutdown                          (* current().shutdown() *)
-| ARestartIn (d : N)                 (* current().shutdow_and_restart_in(d) *)
-| APanic                             (* panic!() *)
-| ASetCatch (b : bool)               (* current().set_stereotyp(Stereotyp { on_panic_catch: b, ..HOST }) *)
-| AQuiet.                            (* callbacks only, the "falls silent" counterpart of APanic: request
-                                        shutdown() unless a request is already pending, return, and let every
-                                        task that is polled in this event end at once without acting *)
-Definition prog := list act.
-
-(* One module.  [c_start]: at_sim_start(0) of incarnation i runs program min(i, last);
-   [c_msg]: handle_message(payload x) runs program x mod length; [c_tasks]: the tasks spawned
-   (tokio::spawn + try_join) by at_sim_start(0) of every incarnation; [c_end]: at_sim_end.
-   Every send / schedule / shutdown request of the module draws on its budget [c_bud]. *)
-Record modcfg := { c_catch : bool; c_stages : N; c_bud : N;
-  c_start : list prog; c_msg : list prog; c_tasks : list prog; c_end : prog }.
-
-(* ---- future event set (C01, C03): the two-list specification of coq/CQueue/Spec.v ---- *)
-Inductive fev :=
-| EvExit (m : N) (far : bool) (x : N)    (* MessageExitingConnection on gate out/far of module m *)
-| EvDeliver (m x : N)                    (* HandleMessageEvent *)
-| EvWake (m : N)                         (* AsyncWakeupEvent *)
-| EvRestart (m : N).                     (* ModuleRestartEvent *)
-
-Fixpoint fes_ins (t : N) (e : fev) (l : list (N * fev)) : list (N * fev) :=
-  match l with
-  | [] => [(t, e)]
-  | x :: r => if t <? fst x then (t, e) :: x :: r else x :: fes_ins t e r
-  end.
-
-Record fes := { f_tcur : N; f_zero : list (N * fev); f_rest : list (N * fev) }.
-
-Definition fes_add (t : N) (e : fev) (f : fes) : fes :=
-  if t =? f_tcur f then {| f_tcur := f_tcur f; f_zero := f_zero f ++ [(t, e)]; f_rest := f_rest f |}
-  else {| f_tcur := f_tcur f; f_zero := f_zero f; f_rest := fes_ins t e (f_rest f) |}.
-
-Definition fes_fetch (f : fes) : option (N * fev * fes) :=
-  match f_zero f with
-  | x :: z => Some (x, {| f_tcur := f_tcur f; f_zero := z; f_rest := f_rest f |})
-  | [] => match f_rest f with
-          | x :: r => Some (x, {| f_tcur := fst x; f_zero := []; f_rest := r |})
-          | [] => None
-          end
-  end.
-
-Definition fes_flush (ps : list (N * fev)) (f : fes) : fes :=
-  fold_left (fun f p => fes_add (fst p) (snd p) f) ps f.
-
-(* ---- state ---- *)
-(* a spawned task: index in c_tasks, incarnation of the module that spawned it, whether it has
-   never been polled, rest of its script *)
-Record task := { tk_id : N; tk_inc : N; tk_new : bool; tk_rest : prog }.
-
-(* ModuleContext of one module: active flag; number of resets so far; remaining budget;
-   shutdown_task; Driver::next_wakeup (None = SimTime::MAX); live timer entries sorted by
-   deadline (FIFO among equal deadlines); tasks woken or spawned but not yet polled (FIFO);
-   number of try_join handles that finished with a panic; Stereotyp.on_panic_catch (a Cell of the
-   ModuleContext: it can be changed at any time, survives a reset, and is read by Harness::catch) *)
-Record mst := { active : bool; inc : N; bud : N; shut : option (option N);
-  nw : option N; timers : list (N * task); ready : list task; tpanics : N; catchf : bool }.
-
-(* the simulation: event set, modules, Sim::error (true = JoinError, false = PanicError),
-   MOD_CTX (module context slot), BUF_CTX.events (event buffer) *)
-Record world := { w_fes : fes; w_mod : N -> mst; w_err : list (bool * N);
-  w_cur : option N; w_buf : list (N * fev) }.
-
-Definition set_fes (w : world) (f : fes) : world :=
-  {| w_fes := f; w_mod := w_mod w; w_err := w_err w; w_cur := w_cur w; w_buf := w_buf w |}.
-Definition set_mod (w : world) (m : N) (x : mst) : world :=
-  {| w_fes := w_fes w; w_mod := fun i => if i =? m then x else w_mod w i; w_err := w_err w;
-     w_cur := w_cur w; w_buf := w_buf w |}.
-Definition set_err (w : world) (e : list (bool * N)) : world :=
-  {| w_fes := w_fes w; w_mod := w_mod w; w_err := e; w_cur := w_cur w; w_buf := w_buf w |}.
-Definition set_cur (w : world) (c : option N) : world :=
-  {| w_fes := w_fes w; w_mod := w_mod w; w_err := w_err w; w_cur := c; w_buf := w_buf w |}.
-Definition set_buf (w : world) (b : list (N * fev)) : world :=
-  {| w_fes := w_fes w; w_mod := w_mod w; w_err := w_err w; w_cur := w_cur w; w_buf := b |}.
-
-Definition set_active (x : mst) (a : bool) : mst :=
-  {| active := a; inc := inc x; bud := bud x; shut := shut x; nw := nw x; timers := timers x;
-     ready := ready x; tpanics := tpanics x; catchf := catchf x |}.
-Definition set_bud (x : mst) (b : N) : mst :=
-  {| active := active x; inc := inc x; bud := b; shut := shut x; nw := nw x; timers := timers x;
-     ready := ready x; tpanics := tpanics x; catchf := catchf x |}.
-Definition set_shut (x : mst) (s : option (option N)) : mst :=
-  {| active := active x; inc := inc x; bud := bud x; shut := s; nw := nw x; timers := timers x;
-     ready := ready x; tpanics := tpanics x; catchf := catchf x |}.
-Definition set_nw (x : mst) (n : option N) : mst :=
-  {| active := active x; inc := inc x; bud := bud x; shut := shut x; nw := n; timers := timers x;
-     ready := ready x; tpanics := tpanics x; catchf := catchf x |}.
-Definition set_timers (x : mst) (l : list (N * task)) : mst :=
-  {| active := active x; inc := inc x; bud := bud x; shut := shut x; nw := nw x; timers := l;
-     ready := ready x; tpanics := tpanics x; catchf := catchf x |}.
-Definition set_ready (x : mst) (l : list task) : mst :=
-  {| active := active x; inc := inc x; bud := bud x; shut := shut x; nw := nw x; timers := timers x;
-     ready := l; tpanics := tpanics x; catchf := catchf x |}.
-Definition set_catchf (x : mst) (b : bool) : mst :=
-  {| active := active x; inc := inc x; bud := bud x; shut := shut x; nw := nw x; timers := timers x;
-     ready := ready x; tpanics := tpanics x; catchf := b |}.
-Definition set_tpanics (x : mst) (n : N) : mst :=
-  {| active := active x; inc := inc x; bud := bud x; shut := shut x; nw := nw x; timers := timers x;
-     ready := ready x; tpanics := n; catchf := catchf x |}.
-
-(* ---- the log ---- *)
-Inductive cb :=
-| CbStart (stage : N)      (* Module::at_sim_start(stage) *)
-| CbMsg (x : N)            (* Module::handle_message(payload x) *)
-| CbTask (id i : N)        (* first poll of task id spawned by incarnation i *)
-| CbTimer (id i : N)       (* task id of incarnation i resumed: its sleep completed *)
-| CbEnd.                   (* Module::at_sim_end *)
-
-(* [who]: 0 = the module's callback, 1 + id = task id.  ICall carries SimTime::now() and a
-   sample of is_active of the module taken inside the call. *)
-Inductive item :=
-| ICall (m : N) (c : cb) (t : N) (a : bool)
-| IReset (m t i : N)                        (* Module::reset at t; i = resets so far *)
-| ILog (m who x : N)
-| ISend (m who : N) (far : bool) (d x : N)
-| ISched (m who d x : N)
-| IShut (m who : N) (r : option N)          (* shutdown(), shutdow_and_restart_in(d) *)
-| IPanic (m who : N) (c : bool)             (* about to panic; c = on_panic_catch of the module right now *)
-| IQuiet (m : N)
-| ICancel (m id : N)                        (* the future of task id was dropped unfinished *)
-| ISample (t mask : N)                      (* after a dispatched event: time, is_active of all modules *)
-| ISetCatch (m who : N) (b : bool).         (* set_stereotyp(on_panic_catch := b) *)
-
-Record xs := { x_w : world; x_log : list item }.
-Definition say (i : item) (s : xs) : xs := {| x_w := x_w s; x_log := x_log s ++ [i] |}.
-Definition on_w (f : world -> world) (s : xs) : xs := {| x_w := f (x_w s); x_log := x_log s |}.
-
-(* ---- topology ---- *)
-Definition next (k m : N) : N := (m + 1) mod k.
-
-(* MessageExitingConnection::handle_with_sink: every gate of the chain that has a next hop
-   is checked for an active owner; the last gate is not.  Result: the receiving module. *)
-Definition walk (k : N) (w : world) (m : N) (far : bool) : option N :=
-  if active (w_mod w m) then
-    if far then (if active (w_mod w (next k m)) then Some (next k (next k m)) else None)
-    else Some (next k m)
-  else None.
-
-(* ---- ctx.rs: buffers ---- *)
-Definition buf_push (p : N * fev) (w : world) : world := set_buf w (w_buf w ++ [p]).
-
-Definition buf_send_at (k now m : N) (far : bool) (d x : N) (w : world) : world :=
-  if d =? 0 then match walk k w m far with Some dst => buf_push (now, EvDeliver dst x) w | None => w end
-  else buf_push (now + d, EvExit m far x) w.
-
-Definition buf_schedule_at (now m d x : N) (w : world) : world := buf_push (now + d, EvDeliver m x) w.
-
-(* ---- interpretation of the scripts ---- *)
-Definition spend (m : N) (w : world) : world := set_mod w m (set_bud (w_mod w m) (bud (w_mod w m) - 1)).
-Definition broke (m : N) (s : xs) : bool := bud (w_mod (x_w s) m) =? 0.
-Definition request (m : N) (r : option N) (w : world) : world := set_mod w m (set_shut (w_mod w m) (Some r)).
-
-Definition do_act (k now m who : N) (a : act) (s : xs) : xs :=
-  match a with
-  | ALog x => say (ILog m who x) s
-  | ASend far d x => if broke m s then s else
-      say (ISend m who far d x) (on_w (fun w => buf_send_at k now m far d x (spend m w)) s)
-  | ASched d x => if broke m s then s else
-      say (ISched m who d x) (on_w (fun w => buf_schedule_at now m d x (spend m w)) s)
-  | AShutdown => if broke m s then s else
-      say (IShut m who None) (on_w (fun w => request m None (spend m w)) s)
-  | ARestartIn d => if broke m s then s else
-      say (IShut m who (Some d)) (on_w (fun w => request m (Some (now + d)) (spend m w)) s)
-  | ASetCatch b => say (ISetCatch m who b) (on_w (fun w => set_mod w m (set_catchf (w_mod w m) b)) s)
-  | ASleep _ | APanic | AQuiet => s
-  end.
-
-Definition quiet (m : N) (s : xs) : xs :=
-  say (IQuiet m) (match shut (w_mod (x_w s) m) with
-                  | None => on_w (request m None) s
-                  | Some _ => s end).
-
-Inductive res := RDone | RPanic | RQuiet | RSleep (d : N) (rest : prog).
-
-Fixpoint run_prog (is_task : bool) (k now m who : N) (p : prog) (s : xs) : xs * res :=
-  match p with
-  | [] => (s, RDone)
-  | APanic :: _ => (say (IPanic m who (catchf (w_mod (x_w s) m))) s, RPanic)
-  | AQuiet :: r => if is_task then run_prog is_task k now m who r s else (quiet m s, RQuiet)
-  | ASleep d :: r => if is_task && (0 <? d) then (s, RSleep d r) else run_prog is_task k now m who r s
-  | a :: r => run_prog is_task k now m who r (do_act k now m who a s)
-  end.
-
-(* TimerQueue::add: behind all entries with a deadline <= t *)
-Fixpoint tins (t : N) (tk : task) (l : list (N * task)) : list (N * task) :=
-  match l with
-  | [] => [(t, tk)]
-  | x :: r => if t <? fst x then (t, tk) :: x :: r else x :: tins t tk r
-  end.
-
-(* one poll of a task by the tokio runtime of module m *)
-Definition poll1 (k now m : N) (s : xs) (tk : task) : xs :=
-  let s0 := say (ICall m (if tk_new tk then CbTask (tk_id tk) (tk_inc tk) else CbTimer (tk_id tk) (tk_inc tk)) now
-                       (active (w_mod (x_w s) m))) s in
-  let '(s1, r) := run_prog true k now m (1 + tk_id tk) (tk_rest tk) s0 in
-  match r with
-  | RDone | RQuiet => s1
-  | RPanic => on_w (fun w => set_mod w m (set_tpanics (w_mod w m) (tpanics (w_mod w m) + 1))) s1
-  | RSleep d rest =>
-      on_w (fun w => set_mod w m (set_timers (w_mod w m)
-              (tins (now + d) {| tk_id := tk_id tk; tk_inc := tk_inc tk; tk_new := false; tk_rest := rest |} (timers (w_mod w m))))) s1
-  end.
-
-(* yield_now inside Harness::exec: every woken / freshly spawned task is polled once, FIFO *)
-Definition poll_ready (k now m : N) (s : xs) : xs :=
-  fold_left (poll1 k now m) (ready (w_mod (x_w s) m))
-            (on_w (fun w => set_mod w m (set_ready (w_mod w m) [])) s).
-
-Definition spawn_all (m : N) (ps : list prog) (w : world) : world :=
-  set_mod w m (set_ready (w_mod w m)
-    (ready (w_mod w m) ++ map (fun ip => {| tk_id := N.of_nat (fst ip); tk_inc := inc (w_mod w m); tk_new := true; tk_rest := snd ip |})
-                              (combine (seq 0 (length ps)) ps))).
-
-(* Harness::exec(callback): the callback, then yield_now; a panic of the callback unwinds
-   out of block_on before the yield.  Result: did the callback panic? *)
-Definition exec (k now m : N) (c : cb) (spawn : list prog) (p : prog) (s : xs) : xs * bool :=
-  let s0 := say (ICall m c now (active (w_mod (x_w s) m))) s in
-  let s1 := on_w (spawn_all m spawn) s0 in
-  let '(s2, r) := run_prog false k now m 0 p s1 in
-  match r with
-  | RPanic => (s2, true)
-  | RQuiet => (on_w (fun w => set_mod w m (set_ready (w_mod w m) [])) s2, false)
-  | _ => (poll_ready k now m s2, false)
-  end.
-
-(* Harness::catch: the stereotype is read now, after the callback.  Result: was an error returned? *)
-Definition catch (c : modcfg) (m : N) (panicked : bool) (w : world) : world * bool :=
-  if panicked then
-    let w1 := set_mod w m (set_active (w_mod w m) false) in
-    if catchf (w_mod w m) then (w1, false) else (set_err w1 (w_err w1 ++ [(false, m)]), true)
-  else (w, false).
-
-(* ---- refs.rs ---- *)
-Fixpoint split_due (now : N) (l : list (N * task)) : list task * list (N * task) :=
-  match l with
-  | [] => ([], [])
-  | x :: r => if fst x <=? now then let '(d, q) := split_due now r in (snd x :: d, q) else ([], l)
-  end.
-
-Definition nw_bump (now : N) (n : option N) : option N :=
-  match n with Some t => if t <=? now then None else Some t | None => None end.
-
-(* ModuleRef::activate: place the context; Driver::bump wakes every entry with deadline <= now *)
-Definition activate (now m : N) (w : world) : world :=
-  let x := w_mod w m in
-  let '(d, q) := split_due now (timers x) in
-  set_cur (set_mod w m (set_nw (set_ready (set_timers x q) (ready x ++ d)) (nw_bump now (nw x)))) (Some m).
-
-Definition lt_nw (t : N) (n : option N) : bool := match n with Some u => t <? u | None => true end.
-
-(* ModuleRef::deactivate: schedule a wake-up for the earliest timer if it is earlier than
-   next_wakeup; take the context *)
-Definition deactivate (m : N) (w : world) : world :=
-  let x := w_mod w m in
-  set_cur (match timers x with
-           | (t, _) :: _ => if lt_nw t (nw x)
-                            then set_fes (set_mod w m (set_nw x (Some t))) (fes_add t (EvWake m) (w_fes w))
-                            else w
-           | [] => w
-           end) None.
-
-(* tasks whose futures are dropped with the tokio runtime, reported in id order *)
-Definition live_ids (x : mst) : list N := map tk_id (ready x) ++ map (fun p => tk_id (snd p)) (timers x).
-Definition cancelled (m : N) (c : modcfg) (x : mst) : list item :=
-  flat_map (fun i => if existsb (N.eqb (N.of_nat i)) (live_ids x) then [ICancel m (N.of_nat i)] else [])
-           (seq 0 (length (c_tasks c))).
-
-(* buf_process, second half: a requested shutdown is consumed: mark inactive, drop the tokio
-   runtime (tasks and their timer entries), activate / Module::reset / deactivate, schedule
-   the restart *)
-Definition shutdown_part (c : modcfg) (now m : N) (w : world) : world * list item :=
-  let x := w_mod w m in
-  match shut x with
-  | None => (w, [])
-  | Some r =>
-    let x1 := {| active := false; inc := inc x + 1; bud := bud x; shut := None; nw := nw_bump now (nw x);
-                 timers := []; ready := []; tpanics := tpanics x; catchf := catchf x |} in
-    let w2 := set_mod w m x1 in
-    (match r with Some t => set_fes w2 (fes_add t (EvRestart m) (w_fes w2)) | None => w2 end,
-     cancelled m c x ++ [IReset m now (inc x + 1)])
-  end.
-
-(* buf_process: drain the buffered events into the event set in order, then handle a
-   requested shutdown *)
-Definition buf_process (c : modcfg) (now m : N) (w : world) : world * list item :=
-  shutdown_part c now m (set_buf (set_fes w (fes_flush (w_buf w) (w_fes w))) []).
-
-(* ---- events.rs ---- *)
-Definition pick_start (c : modcfg) (i : N) : prog :=
-  nth (N.to_nat (N.min i (N.of_nat (length (c_start c)) - 1))) (c_start c) [].
-Definition pick_msg (c : modcfg) (x : N) : prog :=
-  match c_msg c with [] => [] | _ => nth (N.to_nat (x mod N.of_nat (length (c_msg c)))) (c_msg c) [] end.
-
-(* ModuleRef::at_sim_start(stage): only stage 0 spawns tasks and runs a program *)
-Definition at_sim_start (k : N) (c : modcfg) (now m stage : N) (s : xs) : xs * bool :=
-  let '(s1, p) := if stage =? 0
-                  then exec k now m (CbStart stage) (c_tasks c) (pick_start c (inc (w_mod (x_w s) m))) s
-                  else exec k now m (CbStart stage) [] [] s in
-  let '(w2, e) := catch c m p (x_w s1) in
-  ({| x_w := w2; x_log := x_log s1 |}, e).
-
-Definition stage_list (n : N) : list N := map N.of_nat (seq 0 (N.to_nat n)).
-
-(* one stage of a restart; the flag says that the stage loop ends here: at_sim_start(stage)? returned an
-   error, or the module is no longer active (a caught panic deactivated it) *)
-Definition restart_stage (k : N) (c : modcfg) (now m stage : N) (s : xs) : xs * bool :=
-  (fst (at_sim_start k c now m stage s),
-   snd (at_sim_start k c now m stage s) || negb (active (w_mod (x_w (fst (at_sim_start k c now m stage s))) m))).
-
-(* ModuleRef::module_restart: active := true; for stage in 0..n { at_sim_start(stage)?; if !active { break } } *)
-Definition module_restart (k : N) (c : modcfg) (now m : N) (s : xs) : xs :=
-  let s0 := on_w (fun w => set_mod w m (set_active (w_mod w m) true)) s in
-  fst (fold_left (fun (acc : xs * bool) stage => if snd acc then acc else restart_stage k c now m stage (fst acc))
-                 (stage_list (c_stages c)) (s0, false)).
-
-(* ModuleRef::handle_message *)
-Definition handle_message (k : N) (c : modcfg) (now m x : N) (s : xs) : xs :=
-  if active (w_mod (x_w s) m) then
-    let '(s1, p) := exec k now m (CbMsg x) [] (pick_msg c x) s in
-    {| x_w := fst (catch c m p (x_w s1)); x_log := x_log s1 |}
-  else s.
-
-(* ModuleRef::async_wakeup: Harness::exec(|| {}) *)
-Definition async_wakeup (k now m : N) (s : xs) : xs :=
-  if active (w_mod (x_w s) m) then poll_ready k now m s else s.
-
-(* what the driver adds before the run: handle_message_on(m), add_message_onto(m.out | m.far) *)
-Inductive inj := InjDeliver (m x : N) | InjExit (m : N) (far : bool) (x : N).
-Definition inj_ev (i : inj) : fev :=
-  match i with InjDeliver m x => EvDeliver m x | InjExit m far x => EvExit m far x end.
-
-Record script := { s_mods : list modcfg; s_inj : list (N * inj) }.
-
-Definition cfg0 : modcfg :=
-  {| c_catch := false; c_stages := 1; c_bud := 0; c_start := []; c_msg := []; c_tasks := []; c_end := [] |}.
-Definition nmods (sc : script) : N := N.of_nat (length (s_mods sc)).
-Definition cfg (sc : script) (m : N) : modcfg := nth (N.to_nat m) (s_mods sc) cfg0.
-
-(* activate; callback; deactivate; buf_process *)
-Definition around (sc : script) (now m : N) (f : xs -> xs) (w : world) : world * list item :=
-  let s := f {| x_w := activate now m w; x_log := [] |} in
-  let '(w', l) := buf_process (cfg sc m) now m (deactivate m (x_w s)) in
-  (w', x_log s ++ l).
-
-(* NetEvents::handle for one event popped at time t *)
-Definition process (sc : script) (w : world) (t : N) (ev : fev) : world * list item :=
-  let k := nmods sc in
-  match ev with
-  | EvExit m far x =>
-    (match walk k w m far with Some dst => set_fes w (fes_add t (EvDeliver dst x) (w_fes w)) | None => w end, [])
-  | EvDeliver m x => around sc t m (handle_message k (cfg sc m) t m x) w
-  | EvWake m => around sc t m (async_wakeup k t m) w
-  | EvRestart m => around sc t m (module_restart k (cfg sc m) t m) w
-  end.
-
-(* ---- the trace ---- *)
-Inductive ekind :=
-| KStart (stage m : N)      (* SimLifecycle::at_sim_start, one (stage, module) pair *)
-| KBoot                     (* end of the start-up phase: first is_active sample *)
-| KLoop (ev : fev)          (* one dispatched event *)
-| KEnd (m : N).             (* SimLifecycle::at_sim_end, one module *)
-
-Record erec := { e_kind : ekind; e_time : N; e_items : list item }.
-
-Definition mods (sc : script) : list N := map N.of_nat (seq 0 (length (s_mods sc))).
-
-Definition mask (sc : script) (w : world) : N :=
-  fold_right (fun m acc => 2 * acc + (if active (w_mod w m) then 1 else 0)) 0 (mods sc).
-
-(* SimLifecycle::at_sim_start: stages outermost, modules in tree order; a module that an earlier
-   stage deactivated (it panicked or shut itself down) is skipped *)
-Definition start_one (sc : script) (stage m : N) (acc : world * list erec) : world * list erec :=
-  let '(w, tr) := acc in
-  if (stage <? c_stages (cfg sc m)) && active (w_mod w m) then
-    let '(w', l) := around sc 0 m (fun s => fst (at_sim_start (nmods sc) (cfg sc m) 0 m stage s)) w in
-    (w', tr ++ [{| e_kind := KStart stage m; e_time := 0; e_items := l |}])
-  else acc.
-
-Definition max_stage (sc : script) : N := fold_right (fun c a => N.max (c_stages c) a) 1 (s_mods sc).
-
-Definition sim_start (sc : script) (w : world) : world * list erec :=
-  fold_left (fun acc stage => fold_left (fun acc m => start_one sc stage m acc) (mods sc) acc)
-            (stage_list (max_stage sc)) (w, []).
-
-(* ModuleRef::at_sim_end: the callback; unless it returned a PanicError, one more yield and
-   the try_join handles: one JoinError per panicked task *)
-Definition at_sim_end (k : N) (c : modcfg) (now m : N) (s : xs) : xs :=
-  let '(s1, p) := exec k now m CbEnd [] (c_end c) s in
-  let '(w2, e) := catch c m p (x_w s1) in
-  let s2 := {| x_w := w2; x_log := x_log s1 |} in
-  if e then s2 else
-    let s3 := poll_ready k now m s2 in
-    on_w (fun w => set_err w (w_err w ++ repeat (true, m) (N.to_nat (tpanics (w_mod w m))))) s3.
-
-(* SimLifecycle::at_sim_end: every module, active or not; no buf_process *)
-Definition end_one (sc : script) (now m : N) (acc : world * list erec) : world * list erec :=
-  let '(w, tr) := acc in
-  let s := at_sim_end (nmods sc) (cfg sc m) now m {| x_w := activate now m w; x_log := [] |} in
-  (deactivate m (x_w s), tr ++ [{| e_kind := KEnd m; e_time := now; e_items := x_log s |}]).
-
-Definition sim_end (sc : script) (now : N) (w : world) : world * list erec :=
-  fold_left (fun acc m => end_one sc now m acc) (mods sc) (w, []).
-
-(* Runtime::run main loop; the harness dispatches one event at a time and samples is_active *)
-Definition lstate := (world * N * list erec)%type.
-
-Definition loop_step (sc : script) (st : lstate) : lstate + lstate :=
-  let '(w, now, tr) := st in
-  match fes_fetch (w_fes w) with
-  | None => inr st
-  | Some (t, ev, f) =>
-    let '(w', l) := process sc (set_fes w f) t ev in
-    inl (w', t, tr ++ [{| e_kind := KLoop ev; e_time := t; e_items := l ++ [ISample t (mask sc w')] |}])
-  end.
-
-Definition mst0 (c : modcfg) : mst :=
-  {| active := true; inc := 0; bud := c_bud c; shut := None; nw := None; timers := []; ready := []; tpanics := 0;
-     catchf := c_catch c |}.
-
-Definition init_world (sc : script) : world :=
-  {| w_fes := fes_flush (map (fun p => (fst p, inj_ev (snd p))) (s_inj sc)) {| f_tcur := 0; f_zero := []; f_rest := [] |};
-     w_mod := fun m => mst0 (cfg sc m); w_err := []; w_cur := None; w_buf := [] |}.
-
-(* Life/Term.v proves that this fuel is never exhausted *)
-Definition prog_size (p : prog) : N := N.of_nat (length p).
-Definition cfg_size (c : modcfg) : N :=
-  fold_right (fun p a => prog_size p + 1 + a) 0 (c_tasks c).
-Definition cfg_unit (sc : script) : N := fold_right (fun c a => N.max (cfg_size c) a) 0 (s_mods sc).
-Definition fuel_bound (sc : script) : N :=
-  let u := 8 * (cfg_unit sc + 2) in
-  u * (fold_right (fun c a => c_bud c + 1 + a) 0 (s_mods sc) + N.of_nat (length (s_inj sc)) + 1).
-Definition fuel (sc : script) : positive := N.succ_pos (fuel_bound sc).
-
-Record result := { r_trace : list erec; r_err : list (bool * N); r_ok : bool }.
-
-Definition run_script (sc : script) : result :=
-  let '(w0, tr0) := sim_start sc (init_world sc) in
-  let boot := {| e_kind := KBoot; e_time := 0; e_items := [ISample 0 (mask sc w0)] |} in
-  match iter_until (fuel sc) (loop_step sc) (w0, 0, tr0 ++ [boot]) with
-  | inr (w, now, tr) => let '(w', tr') := sim_end sc now w in
-                        {| r_trace := tr ++ tr'; r_err := w_err w'; r_ok := true |}
-  | inl (w, _, tr) => {| r_trace := tr; r_err := w_err w; r_ok := false |}
-  end.
-
-Definition trace (sc : script) : list erec := r_trace (run_script sc).
-Definition flat_log (sc : script) : list item := flat_map e_items (trace sc).
-
-(* ---- the "falls silent" variant of a script (C13 others_as_if_silent) ---- *)
-Definition quiet_act (a : act) : act := match a with APanic => AQuiet | _ => a end.
-Definition quiet_cfg (c : modcfg) : modcfg :=
-  {| c_catch := c_catch c; c_stages := c_stages c; c_bud := c_bud c;
-     c_start := map (map quiet_act) (c_start c); c_msg := map (map quiet_act) (c_msg c);
-     c_tasks := c_tasks c; c_end := map quiet_act (c_end c) |}.
-Fixpoint upd_nth {A} (n : nat) (f : A -> A) (l : list A) : list A :=
-  match l, n with
-  | [], _ => []
-  | x :: r, O => f x :: r
-  | x :: r, S n' => x :: upd_nth n' f r
-  end.
-(* module m's callbacks fall silent where they would have panicked *)
-Definition quieten (m : N) (sc : script) : script :=
-  {| s_mods := upd_nth (N.to_nat m) quiet_cfg (s_mods sc); s_inj := s_inj sc |}.
 
 (* ---- wire format ---- *)
 (* script := k  mod{k'}  inj*                         k' = 2 + k mod 3 modules; v = (k / 3) mod 5: if 1 <= v <= k' the
                                                       variant "module v-1 falls silent instead of panicking" is run as well
-   mod    := catch stages bud  progs progs progs  lp(end)      catch odd = panics are caught; stages' = 1 + stages mod 3
+   mod    := catch stages bud  progs progs progs  lp(end)      catch odd = panics are caught; stages' = 1 + stages mod 3;
+                                                      bit 1+id of catch: the handle of task id is join()ed (else try_join)
    progs  := n lp(prog){n}                            start programs, message programs, tasks
    prog   := (op a b c)*                              op mod 10: 0 log c | 1 send(far = a odd, delay b, payload c)
                                                       | 2 schedule(delay b, payload c) | 3 sleep b | 4 shutdown
@@ -528,7 +46,7 @@ Definition dec_mod (l : list N) : modcfg * list N :=
   let '(ps, r) := blobs r in let '(pm, r) := blobs r in let '(pt, r) := blobs r in
   let '(pe, r) := take_lp r in
   ({| c_catch := N.odd ca; c_stages := 1 + st mod 3; c_bud := b; c_start := map quads ps;
-      c_msg := map quads pm; c_tasks := map quads pt; c_end := quads pe |}, r).
+      c_msg := map quads pm; c_tasks := map quads pt; c_end := quads pe; c_join := (ca / 2) mod 8 |}, r).
 
 Fixpoint dec_mods (n : nat) (l : list N) : list modcfg * list N :=
   match n with
@@ -569,9 +87,11 @@ Definition enc_item (i : item) : list N :=
   | ICancel m id => [13; m; id; 0; 0]
   | ISample t k => [14; t; k; 0; 0]
   | ISetCatch m who b => [19; m; who; b2n b; 0]
+  | ITaskEnd m id i how => [20; m; id; i; how]
+  | ISpawn m id i must => [21; m; id; i; b2n must]
   end.
 
-Definition enc_err (e : bool * N) : list N := [15; b2n (fst e); snd e; 0; 0].
+Definition enc_err (e : N * N) : list N := [15; (if fst e =? 0 then 0 else 1); snd e; fst e; 0].
 
 Definition enc_result (r : result) : list N :=
   flat_map enc_item (flat_map e_items (r_trace r)) ++ flat_map enc_err (r_err r) ++
